@@ -39,4 +39,23 @@ PROPS = {
             "totality theorem is about the model's parsers and verifier (checked cursor reads); the correspondence compares outcome classes (accept / reject / panic) of hbs_lms::verify, VerifyingKey::verify (Signature, VerifierSignature) and the byte-level constructors on every prefix length, field sweeps and random bytes",
         ],
     },
+    "C03": {
+        "families": [{"name": "hist"}],
+        "assumptions": [
+            "history theorems are about Model/History.run over Model/SignCore; each step of the implementation's histories is compared with the model, and the released set (level, tree identifier, leaf) -> content is rebuilt from the signatures by an independent parser",
+            "distinct derivation paths giving distinct 16-byte tree identifiers is a collision assumption on H; the theorem is stated on paths",
+        ],
+    },
+    "C05": {
+        "families": [{"name": "hist"}, {"name": "c13"}],
+        "assumptions": [
+            "theorems about Model/Counter, KeyBlob, SignCore, History; end-to-end lifetimes for the small shapes, pure accounting arithmetic for tall shapes through the tree-free hook",
+        ],
+    },
+    "C09": {
+        "families": [{"name": "hist"}],
+        "assumptions": [
+            "determinism is structural in Gallina; the source-level audit (no ambient state outside fast_verify, forbid(unsafe_code)) is recomputed by the translator on every run; thread interleavings are runtime behaviour and are only sampled",
+        ],
+    },
 }
